@@ -13,16 +13,18 @@ import (
 // FaultSet selects which environment faults are offered at each client->broker packet.
 // Alternative 0 of every fault choice is "deliver"; the enabled kinds follow in this order.
 type FaultSet struct {
-	LostClose  bool // packet lost, write succeeds, peer closes            (request lost)
-	WriteErr   bool // packet lost, write returns an error, link dead
-	AckLost    bool // packet processed, all responses dropped, peer closes (acknowledgement lost)
-	Silent     bool // packet processed, responses dropped, link stays up
-	SilentDrop bool // packet not processed, nothing said, link stays up
-	ConnRefuse bool // CONNECT only: CONNACK with return code 3
-	NoConnAck  bool // CONNECT only: no CONNACK, link stays up
-	DialErr    bool // dial fails
-	DupAck     bool // packet processed, every response is sent twice
-	GoSilent   bool // from this packet on the broker never answers on this connection again (link stays up)
+	LostClose         bool // packet lost, write succeeds, peer closes            (request lost)
+	WriteErr          bool // packet lost, write returns an error, link dead
+	AckLost           bool // packet processed, all responses dropped, peer closes (acknowledgement lost)
+	Silent            bool // packet processed, responses dropped, link stays up
+	SilentDrop        bool // packet not processed, nothing said, link stays up
+	ConnRefuse        bool // CONNECT only: CONNACK with return code 3
+	NoConnAck         bool // CONNECT only: no CONNACK, link stays up
+	DialErr           bool // dial fails
+	DupAck            bool // packet processed, every response is sent twice
+	GoSilent          bool // from this packet on the broker never answers on this connection again (link stays up)
+	WriteErrTransient bool // packet lost, write returns an error (e.g. a write deadline), link stays up
+	Stall             bool // from this packet on the peer stops reading: this and every later Write blocks until the client closes the transport (link stays up, nothing is answered)
 	// OnlyTypes restricts faults to these packet types (nil = every client->broker packet).
 	OnlyTypes map[byte]bool
 }
@@ -38,9 +40,14 @@ const (
 	fNoConnAck
 	fGoSilent
 	fDupAck
+	fWriteErrTransient
+	fStall
 )
 
-var faultNames = [...]string{"deliver", "lost+close", "write-error", "ack-lost+close", "processed-silent", "dropped-silent", "connect-refused", "no-connack", "silent-from-here", "responses-duplicated"}
+var faultNames = [...]string{"deliver", "lost+close", "write-error", "ack-lost+close", "processed-silent", "dropped-silent", "connect-refused", "no-connack", "silent-from-here", "responses-duplicated", "write-error-link-stays-up", "peer-stops-reading"}
+
+// ErrWriteTimeout is the transient write failure (the link stays usable).
+var ErrWriteTimeout = fmt.Errorf("env: write deadline exceeded (transient)")
 
 // Delivery is one onward delivery of an application message by the broker.
 type Delivery struct {
@@ -56,9 +63,11 @@ type Delivery struct {
 type Broker struct {
 	Net         *Net
 	Faults      FaultSet
-	KeepSession bool // false: the server forgets the session between connections
-	MethodB     bool // QoS 2 receiver method B (deliver on PUBLISH) instead of A (deliver on PUBREL)
+	KeepSession bool  // false: the server forgets the session between connections
+	MethodB     bool  // QoS 2 receiver method B (deliver on PUBLISH) instead of A (deliver on PUBREL)
 	PingDelay   int64 // PINGRESP is sent this many virtual ns after PINGREQ (0: at once)
+	GrantMax    *byte // SUBACK grants min(requested, *GrantMax); 0x80 = every subscription is refused (the table still records what was requested)
+	DialDelay   int64 // a failing dial takes this long (virtual ns) before it reports the failure
 
 	// session
 	hasSession bool
@@ -136,6 +145,9 @@ func (b *Broker) Dial() (*Conn, error) {
 	if b.Faults.DialErr {
 		if vrt.Choose(vrt.KFault, 2, "dial") == 1 {
 			b.FaultLog = append(b.FaultLog, "dial error")
+			if b.DialDelay > 0 {
+				vrt.Sleep(b.DialDelay) // a connect timeout rather than an immediate refusal
+			}
 			b.Net.log(WireEvent{Conn: -1, Dir: '!', Note: "dial fails"})
 			return nil, fmt.Errorf("env: dial refused")
 		}
@@ -172,6 +184,12 @@ func (b *Broker) faultsFor(p *Packet) []int {
 	}
 	if f.DupAck && p.Type != CONNECT {
 		alts = append(alts, fDupAck)
+	}
+	if f.WriteErrTransient && p.Type != CONNECT {
+		alts = append(alts, fWriteErrTransient)
+	}
+	if f.Stall && p.Type != CONNECT {
+		alts = append(alts, fStall)
 	}
 	if p.Type == CONNECT {
 		if f.ConnRefuse {
@@ -225,6 +243,18 @@ func (b *Broker) OnData(c *Conn, data []byte) error {
 			c.Break("fault: write error")
 			s.acc = nil
 			return ErrLinkDown
+		case fWriteErrTransient:
+			b.Net.log(WireEvent{Conn: c.ID, Dir: '>', Pkt: p, Raw: raw, Note: "LOST, write error (link stays up)"})
+			s.acc = nil
+			return ErrWriteTimeout
+		case fStall:
+			// the peer stops reading: the packet just handed over still went into the send buffer
+			// (the write returns), but is never processed; every later Write blocks
+			s.silent = true
+			s.silentSince = vrt.Now()
+			c.Stalled = true
+			b.Net.log(WireEvent{Conn: c.ID, Dir: '>', Pkt: p, Raw: raw, Note: "ignored (peer stops reading from here; later writes block)"})
+			continue
 		case fGoSilent:
 			s.silent = true
 			s.silentSince = vrt.Now()
@@ -346,6 +376,9 @@ func (b *Broker) process(c *Conn, s *bconn, p *Packet) {
 		for i, f := range p.Filters {
 			b.Subs[f] = p.QoSs[i]
 			codes[i] = p.QoSs[i]
+			if b.GrantMax != nil && (*b.GrantMax == 0x80 || codes[i] > *b.GrantMax) {
+				codes[i] = *b.GrantMax
+			}
 		}
 		c.Send(EncSubAck(p.ID, codes), "")
 	case UNSUBSCRIBE:
